@@ -1,8 +1,274 @@
 import DarkluaModel.Util.Sexp
-/-! Line-protocol handlers for property C02 (stub: nothing modelled yet). -/
+import DarkluaModel.C02.Model
+import DarkluaModel.C02.Spec
+import DarkluaModel.C02.Writer
+import DarkluaModel.C02.Parse
+/-! Line-protocol handlers for property C02. -/
 namespace DarkluaModel.C02
 
-def handle (op : String) (_args : List String) : String :=
-  "unknown-op " ++ op
+def binOpName : BinOp → String
+  | .and => "and" | .or => "or" | .eq => "eq" | .ne => "ne" | .lt => "lt" | .le => "le"
+  | .gt => "gt" | .ge => "ge" | .add => "add" | .sub => "sub" | .mul => "mul" | .div => "div"
+  | .idiv => "idiv" | .mod => "mod" | .pow => "pow" | .concat => "concat"
+
+def unOpName : UnOp → String
+  | .len => "len" | .neg => "neg" | .not => "not"
+
+def binOpOfName? (s : String) : Option BinOp := BinOp.all.find? fun o => binOpName o == s
+def unOpOfName? (s : String) : Option UnOp := UnOp.all.find? fun o => unOpName o == s
+
+/-- `E` from its S-expression. Fuel = size of the S-expression. -/
+def eOfSexp : Nat → Sexp → Option E
+  | 0, _ => none
+  | f + 1, s =>
+    match s with
+    | .list [.atom "atom", k] => k.nat?.map E.atom
+    | .list [.atom "negnum", k] => k.nat?.map E.negnum
+    | .list [.atom "paren", e] => (eOfSexp f e).map E.paren
+    | .list [.atom "ifexp", c, a, b] =>
+      match eOfSexp f c, eOfSexp f a, eOfSexp f b with
+      | some c, some a, some b => some (.ifexp c a b)
+      | _, _, _ => none
+    | .list [.atom "cast", e, t] =>
+      match eOfSexp f e, t.nat? with
+      | some e, some t => some (.cast e t)
+      | _, _ => none
+    | .list [.atom "un", .atom op, e] =>
+      match unOpOfName? op, eOfSexp f e with
+      | some op, some e => some (.un op e)
+      | _, _ => none
+    | .list [.atom "bin", .atom op, l, r] =>
+      match binOpOfName? op, eOfSexp f l, eOfSexp f r with
+      | some op, some l, some r => some (.bin op l r)
+      | _, _, _ => none
+    | _ => none
+
+def sexpOfE : E → String
+  | .atom k => s!"(atom {k})"
+  | .negnum k => s!"(negnum {k})"
+  | .paren e => s!"(paren {sexpOfE e})"
+  | .ifexp c a b => s!"(ifexp {sexpOfE c} {sexpOfE a} {sexpOfE b})"
+  | .cast e t => s!"(cast {sexpOfE e} {t})"
+  | .un op e => s!"(un {unOpName op} {sexpOfE e})"
+  | .bin op l r => s!"(bin {binOpName op} {sexpOfE l} {sexpOfE r})"
+
+def tokName : Tok → String
+  | .atom k => s!"a{k}"
+  | .lp => "(" | .rp => ")"
+  | .minus => "-" | .knot => "not" | .hash => "#"
+  | .bop op => binOpName op
+  | .kif => "if" | .kthen => "then" | .kelse => "else"
+  | .dcolon => "::" | .tname t => s!"t{t}"
+
+def tokOfName? (s : String) : Option Tok :=
+  match s with
+  | "(" => some .lp | ")" => some .rp | "-" => some .minus | "not" => some .knot
+  | "#" => some .hash | "if" => some .kif | "then" => some .kthen | "else" => some .kelse
+  | "::" => some .dcolon
+  | _ =>
+    match binOpOfName? s with
+    | some op => some (.bop op)
+    | none =>
+      match s.toList with
+      | 'a' :: ds => (String.ofList ds).toNat?.map Tok.atom
+      | 't' :: ds => (String.ofList ds).toNat?.map Tok.tname
+      | _ => none
+
+def parseArgE (args : List String) : Option E :=
+  let s := " ".intercalate args
+  (Sexp.parse s).bind fun sx => eOfSexp (s.length + 2) sx
+
+def showBool (b : Bool) : String := if b then "true" else "false"
+
+/-- one traced operation `name:xHEX:detail` -/
+def opOfWire (s : String) : Option Op :=
+  match s.splitOn ":" with
+  | [name, hexs, detail] =>
+    match hexToBytes? hexs, detail.toInt? with
+    | some bs, some d =>
+      let cs := bs.map (·.toNat)
+      let n := d.toNat
+      match name with
+      | "push_str" => some (.pushStr cs)
+      | "push_char" => cs.head?.map Op.pushChar
+      | "merge_char" => cs.head?.map Op.mergeChar
+      | "push_new_line_if_needed" => some (.pushNewLineIfNeeded n)
+      | "push_space_if_needed" => cs.head?.map fun c => Op.pushSpaceIfNeeded c n
+      | "push_new_line" => some .pushNewLine
+      | "push_space" => some .pushSpace
+      | "raw_push_str" => some (.rawPushStr cs)
+      | "raw_push_char" => cs.head?.map Op.rawPushChar
+      | "push_str_and_break_if" => some (.pushStrAndBreakIf cs)
+      | "push_char_and_break_if" => cs.head?.map Op.pushCharAndBreakIf
+      | "push_can_add_new_line" => some (.pushCanAddNewLine (n != 0))
+      | "pop_can_add_new_line" => some .popCanAddNewLine
+      | "push_indentation" => some .pushIndentation
+      | "pop_indentation" => some .popIndentation
+      | "write_indentation" => some .writeIndentation
+      | _ => none
+    | _, _ => none
+  | _ => none
+
+/-- the traced result of the real predicate of a `*_and_break_if` call, for cross-checking -/
+def predDetail (s : String) : Option Bool :=
+  match s.splitOn ":" with
+  | [name, _, detail] =>
+    if name == "push_str_and_break_if" || name == "push_char_and_break_if" then some (detail != "0") else none
+  | _ => none
+
+/-- The primitives call each other (`push_str` → `push_space_if_needed` → `push_new_line`, …) and
+every call is traced, in call order. `nested w op` is what the model says `op`, started in
+state `w`, calls (transitively, in order): the replay checks the trace against it, so every
+traced decision of the real run is compared, and only top-level calls are `step`ped. -/
+def nestedBreak (w0 : W) (decide : W → List Op) : List Op :=
+  let w := indentIfLineStart w0
+  let ind : List Op :=
+    if w0.lineLen == 0 && w0.indent != 0 then
+      [.writeIndentation, .rawPushStr (List.replicate (4 * w0.indent) SP)] else []
+  ind ++ decide w
+
+def nestedSpaceIfNeeded (dense : Bool) (w0 : W) (next n : Nat) : List Op :=
+  -- dense.rs `push_space_if_needed` pushes the space inline (no `push_space` call to trace)
+  (fun l => if dense then l.filter (· != Op.pushSpace) else l) <| nestedBreak w0 fun w =>
+    if canAddNewLine w then
+      if w.lineLen ≥ w.span then [.pushNewLine]
+      else if needsSpace w next then
+        if w.lineLen + n + 1 > w.span then [.pushNewLine] else [.pushSpace]
+      else if w.lineLen + n > w.span then [.pushNewLine] else []
+    else if needsSpace w next then [.pushSpace] else []
+
+def nestedNewLineIfNeeded (w0 : W) (n : Nat) : List Op :=
+  nestedBreak w0 fun w =>
+    if canAddNewLine w then
+      if w.lineLen ≥ w.span then [.pushNewLine]
+      else if w.lineLen + n > w.span then [.pushNewLine] else []
+    else []
+
+def nested (dense : Bool) (w : W) : Op → List Op
+  | .pushStr [] => []
+  | .pushStr (c :: s) =>
+    let n := (c :: s).length
+    .pushSpaceIfNeeded c n :: (nestedSpaceIfNeeded dense w c n ++ [.rawPushStr (c :: s)])
+  | .pushChar c => .pushSpaceIfNeeded c 1 :: nestedSpaceIfNeeded dense w c 1
+  | .mergeChar c => if fits w 1 then [.rawPushChar c] else []
+  | .pushNewLineIfNeeded n => nestedNewLineIfNeeded w n
+  | .pushSpaceIfNeeded c n => nestedSpaceIfNeeded dense w c n
+  | .pushStrAndBreakIf s =>
+    (if breakPredicate s (lastPushStr w) then
+      (if fits w (1 + s.length) then [Op.pushSpace] else [Op.pushNewLine])
+     else if !fits w s.length then [Op.pushNewLine] else []) ++ [.rawPushStr s]
+  | .pushCharAndBreakIf c =>
+    (if breakPredicate [c] (lastPushStr w) then
+      (if fits w 2 then [Op.pushSpace] else [Op.pushNewLine])
+     else if !fits w 1 then [Op.pushNewLine] else []) ++ [.rawPushChar c]
+  | .writeIndentation => [.rawPushStr (List.replicate (4 * w.indent) SP)]
+  | _ => []
+
+def contentOf : Op → List Nat
+  | .pushStr s | .rawPushStr s | .pushStrAndBreakIf s => s
+  | .pushChar c | .mergeChar c | .rawPushChar c | .pushCharAndBreakIf c => [c]
+  | _ => []
+
+/-- replay of a full trace; `.error` names the first place where the trace is not what the
+model says (a nested call differs, or a break predicate's traced result differs). -/
+partial def replay (dense : Bool) (w : W) (i : Nat) : List (Op × Option Bool) → Except String W
+  | [] => .ok w
+  | (op, real) :: rest =>
+    let predOk :=
+      match op, real with
+      | .pushStrAndBreakIf s, some r => breakPredicate s (lastPushStr w) == r
+      | .pushCharAndBreakIf c, some r => breakPredicate [c] (lastPushStr w) == r
+      | _, _ => true
+    if !predOk then .error s!"predicate-mismatch@{i}"
+    else
+      let inner := nested dense w op
+      let w' := step w op
+      -- end-to-end search for the symbol pairs `break_table_sound` lists as never juxtaposed:
+      -- a content written directly after the previous character, forming such a pair
+      let glued :=
+        match contentOf op, w.rout with
+        | c :: cs, p :: _ =>
+          w'.rout == (c :: cs).reverse ++ w.rout && inPairs neverJuxtaposed p c
+            -- `.` `=` only fuses after the token `..` (into `..=`); after `...` it does not
+            && !(p == 46 && c == 61 && w.rout.take 3 == [46, 46, 46])
+        | _, _ => false
+      if glued then .error s!"never-juxtaposed-pair@{i}"
+      else if (rest.take inner.length).map (·.1) == inner then
+        replay dense w' (i + 1 + inner.length) (rest.drop inner.length)
+      else .error s!"nested-mismatch@{i}"
+
+def handleCore (op : String) (args : List String) : Option String :=
+  match op, args with
+  -- paren <side> <binop|-> <operand E>
+  | "paren", side :: o :: rest =>
+    match parseArgE rest with
+    | none => none
+    | some e =>
+      match side with
+      | "left" => (binOpOfName? o).map fun o => showBool (leftNeedsParentheses o e)
+      | "right" => (binOpOfName? o).map fun o => showBool (rightNeedsParentheses o e)
+      | "unary" => some (showBool (unaryNeedsParentheses e))
+      | "cast" => some (showBool (castNeedsParentheses e))
+      | _ => none
+  -- endsprefix <E> : utils.rs expression_ends_with_prefix (atom kinds as in the harness:
+  -- k % 13 in {0,1,2 identifiers, 6 call, 7 field, 8 index} are prefix expressions)
+  | "endsprefix", rest =>
+    (parseArgE rest).map fun e =>
+      showBool (expressionEndsWithPrefix (fun k => [0, 1, 2, 6, 7, 8].contains (k % 13)) e)
+  | "h3", rest =>
+    (parseArgE rest).map fun e => showBool (H3 (fun k => [0, 1, 2, 6, 7, 8].contains (k % 13)) e)
+  -- h2 <E> : is the expression inside the proved region of print_parses_back_partial?
+  | "h2", rest => (parseArgE rest).map fun e => showBool (H2 e)
+  | "brk", [a, b] =>
+    match a.toNat?, b.toNat? with
+    | some a, some b => some (showBool (shouldBreakWithSpace a b))
+    | _, _ => none
+  -- brkpred <concat|varargs|minus|equal|longstring> <hex of last push>
+  | "brkpred", [name, hex] =>
+    match hexToBytes? hex with
+    | none => none
+    | some bs =>
+      let cs := bs.map (·.toNat)
+      match name with
+      | "concat" => some (showBool (breakConcat cs))
+      | "varargs" => some (showBool (breakVariableArguments cs))
+      | "minus" => some (showBool (breakMinus cs))
+      | "equal" => some (showBool (breakEqual cs))
+      | "longstring" => some (showBool (breakLongString cs))
+      | _ => none
+  | "print", rest =>
+    (parseArgE rest).map fun e => " ".intercalate ((printE e).map tokName)
+  -- refparse <tok>* : the reference parser on a token list
+  | "refparse", toks =>
+    match toks.mapM tokOfName? with
+    | none => none
+    | some ts =>
+      match parseE (parseFuel ts) ts with
+      | some e => some (sexpOfE e)
+      | none => some "noparse"
+  -- roundtrip <E> : norm (parse (print e)) and norm (reify e)
+  | "roundtrip", rest =>
+    (parseArgE rest).map fun e =>
+      let ts := printE e
+      match parseE (parseFuel ts) ts with
+      | some p => sexpOfE (norm p) ++ " " ++ sexpOfE (norm (reify e))
+      | none => "noparse " ++ sexpOfE (norm (reify e))
+  -- parse <hex of the text> : the oracle parser
+  | "parse", [hexs] =>
+    (hexToBytes? hexs).map Parse.parseChunk
+  -- writer <dense|readable> <span> <op>* : replay traced operations on the writer model
+  | "writer", kind :: span :: ops =>
+    match span.toNat?, ops.mapM opOfWire with
+    | some span, some parsed =>
+      match replay (kind == "dense") (W.init span) 0 (parsed.zip (ops.map predDetail)) with
+      | .ok w => some (bytesToHex (w.output.map UInt8.ofNat))
+      | .error e => some e
+    | _, _ => none
+  | _, _ => none
+
+def handle (op : String) (args : List String) : String :=
+  match handleCore op args with
+  | some s => s
+  | none => "error"
 
 end DarkluaModel.C02
